@@ -5,6 +5,7 @@ package main
 // scenarios up to a deviation bound, with a whole-system consistency check at quiescence.
 
 import (
+	"github.com/tinode/chat/server/store/types"
 	"encoding/json"
 	"fmt"
 	"sort"
@@ -199,6 +200,8 @@ func (g *vfGW) post(track *[]vfReqTrack, client, kind, topic, extra string) {
 		body = fmt.Sprintf(`{"del":{"id":"%s","topic":"%s"%s}}`, id, topic, extra)
 	case "set":
 		body = fmt.Sprintf(`{"set":{"id":"%s","topic":"%s"%s}}`, id, topic, extra)
+	case "acc":
+		body = fmt.Sprintf(`{"acc":{"id":"%s"%s}}`, id, extra)
 	}
 	*track = append(*track, vfReqTrack{Client: client, ID: id, Kind: kind, Topic: topic})
 	c.Post(body)
@@ -454,6 +457,30 @@ func vfC14Scenarios() []vfScenario {
 			g.post(tr, "ma", "leave", g.users["o"].id(), `,"unsub":true`)
 			g.post(tr, "mb", "sub", g.users["o"].id(), "")
 		}, nil),
+		// the owner's account is suspended while the group is being loaded for a member: whichever comes
+		// first, the loaded topic must end up read-only (C03 "... nor suspended")
+		vfRaceScenario("suspend-load-pub", [2]int{1, 2}, false, func(g *vfGW, tr *[]vfReqTrack) {
+			vsched.Zone(false)
+			for _, cn := range []string{"o1", "ma", "mb", "x1", "r1"} {
+				g.cl[cn].Req(`{"leave":{"id":"$ID","topic":"%s"}}`, g.grp)
+			}
+			vsched.Advance(10 * time.Second)
+			vsched.Zone(true)
+			g.post(tr, "ma", "sub", g.grp, "")
+			g.post(tr, "r1", "acc", "", fmt.Sprintf(`,"user":"%s","status":"susp"`, g.users["o"].id()))
+		}, func(g *vfGW, obs *vfRaceObs) {
+			ur := g.w.db.User(g.users["o"].uid)
+			suspended := ur != nil && ur.State == types.StateSuspended
+			s := g.cl["ma"].session()
+			attached := s != nil && s.getSub(g.grp) != nil
+			before := len(g.w.db.Messages(g.grp))
+			code, _ := g.cl["ma"].Req(`{"pub":{"id":"$ID","topic":"%s","content":"after suspension"}}`, g.grp)
+			after := len(g.w.db.Messages(g.grp))
+			if suspended && (code == 202 || after != before) {
+				obs.Violations = append(obs.Violations, vfXViolation{Key: "C03:publish-to-suspended-topic:race", What: fmt.Sprintf("the owner was suspended while the topic was being loaded; afterwards a member's publish was answered %d and %d row(s) were stored", code, after-before)})
+			}
+			obs.Outcome += fmt.Sprintf(",suspended=%v,attached=%v,pub=%d", suspended, attached, code)
+		}),
 		// account deletion racing with the user's own subscribe to 'me' and a publish
 		vfRaceScenario("deluser-subme", [2]int{1, 2}, false, func(g *vfGW, tr *[]vfReqTrack) {
 			g.post(tr, "x1", "sub", "me", "")
@@ -480,7 +507,7 @@ func TestVerifC03Races(t *testing.T) {
 	defer r.Finish()
 	var sel []vfScenario
 	for _, sc := range vfC14Scenarios() {
-		if sc.Name == "deltopic-sub-pub" || sc.Name == "leave-evict" {
+		if sc.Name == "deltopic-sub-pub" || sc.Name == "leave-evict" || sc.Name == "suspend-load-pub" {
 			sel = append(sel, sc)
 		}
 	}
